@@ -17,7 +17,7 @@ import Bt.Algos.Select
   * `vals[name] += series` / `vals[name] = series` (aggregation of same-named securities): `groupSum`,
     first-occurrence column order, left-to-right floating point addition;
   * `{x.name: x.prices for x in securities}` (a dict comprehension): the LAST security of a name wins
-    (`lastOf`);
+    (`lastOf`; all securities of a name read the same price column);
   * `frame.div(series, axis=0)`: row-wise division; IEEE `x/0 = ±inf`, `0/0 = NaN`;
   * `.sum(axis=1)` (skipna): NaN cells are skipped, the empty sum is 0 (`sumSome`);
   * `frame[mask].fillna(0)`: cells failing the mask become 0 (`posPart`, `negPart`);
@@ -44,6 +44,7 @@ structure Cell (α : Type) where
   boPaid : α         -- `_bidoffers_paid`   (0 when bid/offer accounting is off)
   cash : α           -- `_cash`             (strategies; 0 for securities)
   price : Option α   -- `_prices`: market price of a security (NaN = none), index of a strategy
+  mult : α           -- `multiplier` of a security (static: the same on every date; 1 for strategies)
 
 /-- one date: every member, root first -/
 abbrev Snap (ι α : Type) := List (Node ι × Cell α)
@@ -171,12 +172,13 @@ def purchasesAt (s : Snap ι α) : α := sumL ((outlaysAt s).map (fun kx => posP
 def salesAt (s : Snap ι α) : α := absA (sumL ((outlaysAt s).map (fun kx => negPart kx.2)))
 
 /-- `Backtest.turnover` on one date: min(purchases, sales) over the root's VALUE (also under a fixed-income
-    root).  Without any security the outlay frame is empty and the outer join with `values` leaves NaN. -/
+    root).  Without any security the outlay frame is empty; `min_outlay.reindex(values.index).fillna(0.0)`
+    makes the numerator 0 on every date. -/
 def turnoverAt (s : Snap ι α) : Option α :=
   match s with
   | [] => none
   | (_, r) :: _ =>
-    if (outlaysAt s).isEmpty then none
+    if (outlaysAt s).isEmpty then divO 0 r.value
     else divO (minA (purchasesAt s) (salesAt s)) r.value
 
 /-- `Result.prices[name]` / `backtest.stats.prices`: the root's `_prices` row (the strategy's index) -/
@@ -199,13 +201,17 @@ def qtyAt (prev : Option (List (ι × α))) (k : ι) (cur : α) : α :=
     | some p => cur - p
     | none => cur            -- a column missing on the previous row: not possible in one frame
 
-/-- the reported price: the (last same-named) security's market price, plus its bid/offer paid on that date
-    over the aggregated quantity when bid/offer accounting is on -/
+/-- bid/offer paid per unit of price: `x.bidoffers_paid / x.multiplier`, aggregated over same-named securities
+    like the positions -/
+def spreadAt (s : Snap ι α) : List (ι × α) := secAgg (fun c => c.boPaid / c.mult) s
+
+/-- the reported price: the (last same-named) security's market price, plus — when bid/offer accounting is on —
+    the aggregated (bid/offer paid / multiplier) of that ticker on that date over the aggregated quantity -/
 def txnPrice (boSet : Bool) (k : ι) (d : α) (s : Snap ι α) : Option α :=
   match lastOf Cell.price k s with
   | some (some p) =>
     if boSet then
-      match lastOf Cell.boPaid k s with
+      match getK k (spreadAt s) with
       | some b => ofNum (p + b / d)
       | none => none
     else some p
@@ -372,7 +378,8 @@ structure OTrade (ι α : Type) where
   name : ι
   qty : α
   price : α       -- the security's market price on the date
-  spread : α      -- bid/offer paid by this trade (cash)
+  spread : α      -- bid/offer paid by this trade (cash, multiplier included)
+  mult : α        -- the security's multiplier
 
 /-- `abs(q) * 0.5 * bidoffer * multiplier` with `half = 0.5 * bidoffer` -/
 def marketSpread (q half m : α) : α := absA q * half * m
@@ -395,10 +402,10 @@ def origCost (fee : α → α → α) (m : α) (tr : OTrade ι α) : α :=
 def origDay (fee : α → α → α) (st : RState ι α) (trades : List (OTrade ι α)) : RState ι α :=
   trades.foldl (fun st tr => applyTrade st tr.name tr.qty (origCost fee (multOf tr.name st.secs) tr)) st
 
-/-- the row `get_transactions()` shows for a date's only trade of a security: quantity and
-    market price + spread paid / quantity (`txnRow_of_single_trade`) -/
+/-- the row `get_transactions()` shows for a date's only trade of a ticker: quantity and
+    market price + (spread paid / multiplier) / quantity (`txnRow_of_single_trade`) -/
 def listedRow (tr : OTrade ι α) : ι × Option α × Option α :=
-  (tr.name, some tr.qty, ofNum (tr.price + tr.spread / tr.qty))
+  (tr.name, some tr.qty, ofNum (tr.price + tr.spread / tr.mult / tr.qty))
 
 /-- the states after every date of the original run -/
 def origRun (fee : α → α → α) : RState ι α → List (List (OTrade ι α)) → List (RState ι α)
